@@ -48,7 +48,11 @@ func build(k int, withDefault bool, ends int, how string) *drv.Graph {
 	}
 	if withDefault {
 		a := g.Add(drv.Task, "ad")
-		g.LinkDefault(of, a)
+		if f := g.LinkDefault(of, a); how == "defcond" {
+			// the default flow carries a condition of its own, and it is false: a default flow is
+			// taken when no other condition holds, whatever it carries
+			f.Cond = drv.Const(false)
+		}
 		g.Link(a, oj, nil)
 		joining++
 	}
@@ -120,6 +124,9 @@ func init() {
 					}
 					if thorough && k <= 2 && ends <= 1 {
 						add(scn(k, def, ends, 2, ""))
+					}
+					if def && ends == 0 && k <= 3 {
+						add(scn(k, def, ends, 0, "defcond"))
 					}
 					if ends != 0 && k <= 3 {
 						add(scn(k, def, ends, 0, "implicit"))
